@@ -135,6 +135,12 @@ func graffitiArray(b []byte) [32]byte {
 }
 
 func runBest(c *BestCase, out *outcome) {
+	libBefore := libraryPanics.Load()
+	defer func() {
+		if libraryPanics.Load() > libBefore {
+			out.label("best:response-the-client-library-itself-panics-on")
+		}
+	}()
 	ctx, cancel := context.WithCancel(context.Background())
 	defer cancel()
 	providers, doubles := buildNodes(c.Nodes)
